@@ -26,8 +26,8 @@ from . import graphref as gr
 
 PROP = "C18"
 TIERS = {
-    "quick": {"runs": 12000, "wall": 75, "chunk": 60},
-    "thorough": {"runs": 280000, "wall": 840, "chunk": 200},
+    "quick": {"runs": 30000, "wall": 75, "chunk": 100},
+    "thorough": {"runs": 500000, "wall": 840, "chunk": 200},
 }
 STEP_CAP = 3_000_000
 SHRINK_BUDGET = 200
